@@ -300,10 +300,10 @@ func meaningCoversText(views []segView) (bool, string, string) {
 }
 
 type selCase struct {
-	Sel    []segRec         `json:"sel"`
-	Val    []any   `json:"val"`
-	Expect []any   `json:"expect"`
-	Hist   [][]any `json:"hist"`
+	Sel    []segRec `json:"sel"`
+	Val    []any    `json:"val"`
+	Expect []any    `json:"expect"`
+	Hist   [][]any  `json:"hist"`
 }
 
 type selTextCase struct {
